@@ -406,6 +406,7 @@ def run_case(w, case):
     out = {}
     text = build_text(case)
     out["text"] = text
+    w.reset()
     # operand values as the interpreter reads them
     a = k(top(case["a"]))
     left = None
